@@ -108,7 +108,8 @@ func boundaries(r *hx.Rand, times []uint64, max int) []uint64 {
 func gen(r *hx.Rand, tier string) []json.RawMessage {
 	nScripts, cutsPerScript, nLib, cutsPerLib, nops := 40, 4, 12, 3, 10
 	if tier == "thorough" {
-		nScripts, cutsPerScript, nLib, cutsPerLib, nops = 250, 1000, 60, 1000, 14
+		// every lib case is three fresh processes: 40 assemblies x (12 sampled + 1-2 directed) cuts
+		nScripts, cutsPerScript, nLib, cutsPerLib, nops = 250, 1000, 40, 12, 14
 	}
 	var out []json.RawMessage
 	for i := 0; i < nScripts; i++ {
@@ -158,8 +159,8 @@ func init() {
 		ID:      "C06",
 		Imports: "From Akita Require Import Lib.Base Lib.AbsSim C06.Model C06.Exec.",
 		Rule: "scripted simulations (1-4 table-driven handlers, same-instant primary/secondary chains, real SerialEngine + real " +
-			"simulation.SaveCheckpoint/LoadCheckpoint through the tar.gz archive) cut at sampled (quick) or every (thorough) distinct " +
-			"event time plus between/beyond; library assemblies (ideal, wt, wb, wt+wb, banked, full virtual-memory stack) cut likewise. " +
+			"simulation.SaveCheckpoint/LoadCheckpoint through the tar.gz archive) cut at 4 sampled (quick) or every (thorough) distinct " +
+			"event time plus between/beyond; library assemblies (ideal, wt, wb, wt+wb, banked, DRAM, full virtual-memory stack), every phase in a fresh process, cut at 3 (quick) or 12 (thorough) sampled event times plus between/beyond. " +
 			"Non-trivial: events were handled both before and after the cut (scripts: and the run has a same-instant primary/secondary pair). " +
 			"Distinct = distinct input hash.",
 		Gen: gen, Run: run, Shrink: shrink,
